@@ -1,14 +1,16 @@
 ------------------------------ MODULE Bond_MC ------------------------------
 (* bounded configurations for the design step of C38 *)
 EXTENDS Bond
-CONSTANTS Rates, Maxes, Stamps, ExpChoices, MaxChunk, SponsorOf, SizeOf
+CONSTANTS Rates, FailRates, Maxes, Stamps, ExpChoices, MaxChunk, SponsorOf, SizeOf
 
 Infos  == {[t \in Txs |-> [sp |-> SponsorOf[t], size |-> SizeOf[t], exp |-> e[t]]] : e \in ExpChoices}
 Chunks == UNION {[1..n -> Txs] : n \in 1..MaxChunk}
 
 MCInit == \E i \in Infos, m \in [Sponsors -> Maxes] : Init(i, m)
 MCNext ==
-  \/ \E txs \in Chunks, r \in Rates : BuildChunk(txs, r)
+  \/ \E txs \in Chunks, r \in Rates : BuildChunk(txs, r, Len(txs), FALSE)
+  \/ \E txs \in Chunks, r \in FailRates : BuildChunk(txs, r, Len(txs), TRUE)              \* inner build fails
+  \/ \E txs \in Chunks, r \in FailRates : \E cut \in 0..(Len(txs) - 1) : BuildChunk(txs, r, cut, FALSE)  \* Bond errors
   \/ \E ts \in Stamps, incl \in SUBSET Txs : Accept(ts, incl)
   \/ \E s \in Sponsors, m \in Maxes : SetMax(s, m)
 MCSpec == MCInit /\ [][MCNext]_vars
